@@ -9,6 +9,11 @@ import PQ.Lemmas.SrcEquivBulk
 import PQ.Lemmas.SrcEquivBulkQ
 import PQ.Lemmas.SrcEquivExtend
 import PQ.Lemmas.SrcEquivPanic
+import PQ.Lemmas.SrcEquivPanic2
+import PQ.Lemmas.SrcEquivPanicPQ
+import PQ.Lemmas.SrcEquivPanicDQ
+import PQ.Lemmas.SrcEquivPanicBulk
+import PQ.Lemmas.SrcEquivPanicExtend
 /-!
 # Source-translated tie: audit file
 
@@ -77,7 +82,19 @@ Under panics (`PQ/Model/SrcF.lean`: the `fuse`-th comparison panics, frames unwi
 | `DoublePriorityQueue::bubble_up_min` / `bubble_up_max` (seen from the owner of the hole) | `Crash.DQ.bubbleUpMinLoopF` / `bubbleUpMaxLoopF` | `SrcEquivF.call_dqBubbleUpMinF` / `call_dqBubbleUpMaxF` |
 | `DoublePriorityQueue::bubble_up` | `Crash.DQ.bubbleUpF` | `SrcEquivF.dqBubbleUpF` |
 | `DoublePriorityQueue::push` of a new item | `Crash.DQ.pushF` | `SrcEquivF.dqPushF_new` |
+| `PriorityQueue::heapify` (swap-based: the store as it is) | `Crash.MaxQ.heapifyF` | `SrcEquivF.pqHeapifyF` |
+| `PriorityQueue::up_heapify`, `heap_build` | `Crash.MaxQ.upHeapifyF`, `heapBuildF` | `SrcEquivF.pqUpHeapifyF`, `pqHeapBuildF` |
+| `PriorityQueue::{pop, pop_if, remove, change_priority, change_priority_by}` | `Crash.MaxQ.{popF, popIfF, removeF, changePriorityF, changePriorityByF}` | `SrcEquivF.pq{Pop,PopIf,Remove,ChangePriority,ChangePriorityBy}F` |
+| `PriorityQueue::push` (new or present item), `push_increase`, `push_decrease` | `Crash.MaxQ.{pushF, pushIncreaseF, pushDecreaseF}` | `SrcEquivF.pqPushF`, `pqPushIncreaseF`, `pqPushDecreaseF` |
+| `DoublePriorityQueue::heapify_min`, `heapify_max`, `heapify` | `Crash.DQ.heapifyMinLoopF`, `heapifyMaxLoopF`, `heapifyF` | `SrcEquivF.dqHeapifyMinF`, `dqHeapifyMaxF`, `dqHeapifyF` |
+| `DoublePriorityQueue::up_heapify`, `heap_build`, `find_max` | `Crash.DQ.upHeapifyF`, `heapBuildF`, `findMaxF` | `SrcEquivF.dqUpHeapifyF`, `dqHeapBuildF`, `dqFindMaxF` |
+| `DoublePriorityQueue::{peek_max, peek_max_mut (+ the caller's write), pop_min, pop_max, pop_min_if, pop_max_if}` | `Crash.DQ.{peekMaxF, peekMaxMutWriteF, popMinF, popMaxF, popMinIfF, popMaxIfF}` | `SrcEquivF.dq{PeekMax,PeekMaxMut,PopMin,PopMax,PopMinIf,PopMaxIf}F` |
+| `DoublePriorityQueue::{remove, change_priority, change_priority_by, push, push_increase, push_decrease}` | `Crash.DQ.{removeF, changePriorityF, changePriorityByF, pushF, pushIncreaseF, pushDecreaseF}` | `SrcEquivF.dq{Remove,ChangePriority,ChangePriorityBy,Push,PushIncrease,PushDecrease}F` |
+| `retain_mut`, `retain`, `append`, `From<other queue>` (both queues) | `Crash.{MaxQ,DQ}.{retainMutF, appendF, ofStoreF}` | `SrcEquivF.{pq,dq}{RetainMut,Retain,Append,FromQueue}F` |
+| `From<Vec>`, `FromIterator`, `Deserialize` (both queues; the queue under construction is dropped: `asNew`) | `Crash.{MaxQ,DQ}.{fromVecF, fromIterF, deserializeF}` | `SrcEquivF.{pq,dq}{FromVec,FromIter,Deserialize}F` |
+| `Extend` (both queues) | `Crash.{MaxQ,DQ}.extendF` | `SrcEquivF.{pq,dq}ExtendF` |
 | `Store::clear` when dropping an element panics: tables empty, `size = 0` | (no twin: stated directly) | `SrcEquivF.storeClearF` |
+| every comparison-free function (the `Store` layer, `find_min`, `peek`, `peek_mut`): the fused interpreter IS the plain one | (the plain model) | `SrcEquivF.execF_noPanic`, `callF_pf` |
 
 NOT tied this way: see `PQ/Model/SRC_README.md`.
 
@@ -222,3 +239,51 @@ end PQ.SrcTie
 #print axioms PQ.SrcEquivF.call_dqBubbleUpMaxF
 #print axioms PQ.SrcEquivF.dqBubbleUpF
 #print axioms PQ.SrcEquivF.dqPushF_new
+#print axioms PQ.SrcEquivF.pqHeapifyF
+#print axioms PQ.SrcEquivF.pqUpHeapifyF
+#print axioms PQ.SrcEquivF.pqHeapBuildF
+#print axioms PQ.SrcEquivF.pqPopF
+#print axioms PQ.SrcEquivF.pqPopIfF
+#print axioms PQ.SrcEquivF.pqRemoveF
+#print axioms PQ.SrcEquivF.pqChangePriorityF
+#print axioms PQ.SrcEquivF.pqChangePriorityByF
+#print axioms PQ.SrcEquivF.pqPushF
+#print axioms PQ.SrcEquivF.pqPushIncreaseF
+#print axioms PQ.SrcEquivF.pqPushDecreaseF
+#print axioms PQ.SrcEquivF.dqHeapifyMinF
+#print axioms PQ.SrcEquivF.dqHeapifyMaxF
+#print axioms PQ.SrcEquivF.dqHeapifyF
+#print axioms PQ.SrcEquivF.dqUpHeapifyF
+#print axioms PQ.SrcEquivF.dqHeapBuildF
+#print axioms PQ.SrcEquivF.dqFindMaxF
+#print axioms PQ.SrcEquivF.dqPeekMaxF
+#print axioms PQ.SrcEquivF.dqPeekMaxMutF
+#print axioms PQ.SrcEquivF.dqPopMinF
+#print axioms PQ.SrcEquivF.dqPopMaxF
+#print axioms PQ.SrcEquivF.dqRemoveF
+#print axioms PQ.SrcEquivF.dqChangePriorityF
+#print axioms PQ.SrcEquivF.dqChangePriorityByF
+#print axioms PQ.SrcEquivF.dqPushF
+#print axioms PQ.SrcEquivF.dqPushIncreaseF
+#print axioms PQ.SrcEquivF.dqPushDecreaseF
+#print axioms PQ.SrcEquivF.dqPopMinIfF
+#print axioms PQ.SrcEquivF.dqPopMaxIfF
+#print axioms PQ.SrcEquivF.pqRetainMutF
+#print axioms PQ.SrcEquivF.pqRetainF
+#print axioms PQ.SrcEquivF.pqAppendF
+#print axioms PQ.SrcEquivF.pqFromVecF
+#print axioms PQ.SrcEquivF.pqFromIterF
+#print axioms PQ.SrcEquivF.pqFromQueueF
+#print axioms PQ.SrcEquivF.pqDeserializeF
+#print axioms PQ.SrcEquivF.dqRetainMutF
+#print axioms PQ.SrcEquivF.dqRetainF
+#print axioms PQ.SrcEquivF.dqAppendF
+#print axioms PQ.SrcEquivF.dqFromVecF
+#print axioms PQ.SrcEquivF.dqFromIterF
+#print axioms PQ.SrcEquivF.dqFromQueueF
+#print axioms PQ.SrcEquivF.dqDeserializeF
+#print axioms PQ.SrcEquivF.pqExtendF
+#print axioms PQ.SrcEquivF.dqExtendF
+#print axioms PQ.SrcEquivF.execF_noPanic
+#print axioms PQ.SrcEquivF.callF_pf
+#print axioms PQ.SrcEquivF.pfSet_ok
